@@ -28,6 +28,9 @@ def run(ctx) -> None:
     res, stats = family_results(ctx)
     ctx.extra["skeleton_stats"] = stats
     report(ctx, res, "C07", prefixes=("P1.", "P2.", "R1.", "N2.unit-instruction", "G4.instr"))
+    # H: the record format Lemma B assumes (shared with C10.W)
+    from .c10 import writer_rules
+    writer_rules(ctx, "C07.H.record-format", "C07.H.record-terminator")
     # P3 shipped macro file
     f = ctx.p.root / "tests" / "macros" / "jasm_macros.yaml"
     if not f.exists():
